@@ -7,7 +7,7 @@
    Nothing here is proved; it is extracted to OCaml and run by the harness. *)
 From Coq Require Import List Arith NArith Bool.
 From MR Require Import Lib.Bytes Lib.Val Model.Index Model.Dag Model.IndexGroups Model.Git Model.Tracking Model.CfgFile Model.Sched Model.Plan.
-From MR Require Model.Lock Model.Reader.
+From MR Require Model.Lock Model.Reader Model.Filter.
 Import ListNotations.
 Open Scope nat_scope.
 
@@ -493,6 +493,17 @@ Definition check_reader (v : val) : val :=
   let arrived_ok := str_eqb (Reader.arrived es) (dStr (dNth v 3)) in
   VL [eB (Reader.ended s); VL [eStr (Reader.out s); eB (Reader.failed s)]; eB (stored_ok && streamed_ok && negb (Reader.failed s)); eB arrived_ok].
 
+(* ---------- C20: which readers get a stream client ---------- *)
+(* input: listener present; want_stdout; want_stderr; targets; commands; tasks [(is_stdout, target, command)] *)
+Definition check_filter (v : val) : val :=
+  let f := if dB (dNth v 0)
+           then Some {| Filter.want_stdout := dB (dNth v 1); Filter.want_stderr := dB (dNth v 2);
+                        Filter.ftargets := dStrs (dNth v 3); Filter.fcommands := dStrs (dNth v 4) |}
+           else None in
+  let ts := map (fun e => {| Filter.is_stdout := dB (dNth e 0); Filter.ttarget := dStr (dNth e 1); Filter.tcommand := dStr (dNth e 2) |})
+                (dL (dNth v 5)) in
+  VL (map eB (Filter.attach f ts)).
+
 (* ---------- dispatch ---------- *)
 From Coq Require Import String.
 Open Scope string_scope.
@@ -511,4 +522,5 @@ Definition dispatch (name : str) (v : val) : val :=
   else if str_eqb name (bs "plan") then check_plan v
   else if str_eqb name (bs "lock") then check_lock v
   else if str_eqb name (bs "reader") then check_reader v
+  else if str_eqb name (bs "filter") then check_filter v
   else VL [].
